@@ -422,6 +422,11 @@ Wide8 == W(<<239, 205, 171, 137, 103, 69, 35, 1>>)
 FileTabs == {
   [fmt |-> <<<<LNCT_path, F_string>>, <<LNCT_directory_index, F_udata>>>>,
    es |-> << <<VStr(S_a), N(0)>>, <<VStr(S_b), N(1)>> >>],
+  \* the same tuple of forms with other content type codes (a reader must key on the codes, not on the forms)
+  [fmt |-> <<<<LNCT_path, F_string>>, <<LNCT_size, F_udata>>>>,
+   es |-> << <<VStr(S_a), N(300)>>, <<VStr(S_b), N(1)>> >>],
+  [fmt |-> <<<<LNCT_path, F_string>>, <<LNCT_timestamp, F_udata>>>>,
+   es |-> << <<VStr(S_b), N(74565)>> >>],
   [fmt |-> <<<<LNCT_path, F_line_strp>>, <<LNCT_directory_index, F_data1>>>>,
    es |-> << <<VStr(S_a), N(0)>>, <<VStr(S_b), N(255)>>, <<VStr(S_a), N(1)>> >>],
   [fmt |-> <<<<LNCT_path, F_strp>>, <<LNCT_directory_index, F_data2>>, <<LNCT_MD5, F_data16>>>>,
